@@ -27,6 +27,13 @@ def pareto_compare(rng, tier):
         p = [rng.choice(GRID) for _ in range(m)] + [rng.choice(MARK)]
         q = [rng.choice(GRID) for _ in range(m)] + [rng.choice(MARK)]
         yield {"call": lambda p, q: d.compare(p, q), "args": {"p": p, "q": q}, "label": "%r|%r" % (p, q)}
+    # objectives that differ by less than any "robust" tolerance but are different floats: the comparator is exact
+    near = [1000.0, 1000.0000005, 1.0, 1.0 + 2.3e-13, 5.0, 0.0, 1e-13]
+    for _ in range(200 if tier == "quick" else 3000):
+        m = rng.randint(1, 3)
+        p = [rng.choice(near) for _ in range(m)] + [0]
+        q = [rng.choice(near) for _ in range(m)] + [0]
+        yield {"call": lambda p, q: d.compare(p, q), "args": {"p": p, "q": q}, "label": "near %r|%r" % (p, q)}
 
 
 def _eps_extra():
